@@ -1,6 +1,7 @@
 (* Props/C12.v -- snippet returns exactly n samples starting exactly at the requested time. *)
-From Coq Require Import ZArith QArith Qround.
-From PB Require Import Model.Ledger Model.Snippet Proofs.SnippetProofs.
+From Coq Require Import ZArith QArith Qround Reals.
+From Coquelicot Require Import Complex.
+From PB Require Import Lib.PySlice Lib.Dft Lib.DftC Model.Ledger Model.Shift Model.Snippet Proofs.SnippetProofs Proofs.ShiftC Proofs.SnippetC.
 Open Scope Z_scope.
 
 (* t: the start in samples as the double the code holds; tn: the double the code obtains for t + n;
@@ -25,9 +26,23 @@ Theorem C12_whole : forall l ti n, 0 <= len l -> 0 <= n -> 0 <= ti -> ti + n <= 
   match step l (OSnippet ti n) with Ok l' off _ => SOk l' off 0 false | Err e => SErr e end.
 Proof. exact snippet_whole. Qed.
 
-(* C12_value (sample k is the DFT interpolant of z at t + k): see Props/C03.v (shift theorem); the
-   composition "shift by floor(t) - t, then take samples floor(t) .. floor(t)+n-1" is checked numerically
-   against an independent O(N^2) evaluation of the interpolant by the harness. *)
+(* values at a fractional start, over the complex numbers, every n >= 1: snippet shifts the whole signal by a = floor(t) - t in
+   (-1, 0) (ramp exp(-2 pi i a fftfreq(k)/n), exactly the code's), which zero-fills only the last sample (cropped), and takes samples
+   floor(t) + k.  For a tone at bin k0 sample k of the result is the band-limited continuation of that tone evaluated at t + k
+   (tone_at k0 tau := exp(2 pi i fftfreq(k0) tau / n); at integer tau it is the tone itself); the operation is linear
+   (Lib/Dft.diag_linear), which fixes the result for every input. *)
+Theorem C12_not_zeroed : forall N a m, (-1 < a)%Q -> (a < 0)%Q -> 0 <= m -> m <= N - 2 -> Shift.in_range (zero_range N a) m = false.
+Proof. exact snippet_not_zeroed. Qed.
+Theorem C12_value_tone : forall (n : nat), (0 < n)%nat -> forall (t : R) (i k k0 : nat) (r : Z * Z), (k0 < n)%nat ->
+  Shift.in_range r (Z.of_nat (i + k)) = false ->
+  tshiftC n (ramp n (INR i - t)) r (tone C (W n) k0) (i + k) = tone_at n k0 (t + INR k).
+Proof. exact snippet_tone. Qed.
+Theorem C12_tone_at_samples : forall (n : nat), (0 < n)%nat -> forall (k0 m : nat), (k0 < n)%nat ->
+  tone_at n k0 (INR m) = tone C (W n) k0 m.
+Proof. exact tone_at_int. Qed.
+(* the numerical side (scipy.fft = this DFT, rounding) is checked by the harness against an independent O(N^2) evaluation. *)
+
 Print Assumptions C12_errors.
 Print Assumptions C12_len_start.
 Print Assumptions C12_whole.
+Print Assumptions C12_value_tone.
